@@ -147,10 +147,10 @@ Definition ex_hist : list (hop unit) :=
   [HAccount unit 1 2; HAccount unit 2 2; HAccount unit 3 2;
    HMint unit 1 0 100000; HMint unit 2 0 50000; HMint unit 3 0 50000; HMint unit 1 1 77;
    HFollow unit (FDelegate 1 13 1000); HFollow unit (FDelegate 3 13 500);
-   HEndBlock unit 15 20 [] [];
+   HEndBlock unit 15 20 [] [] no_vside;
    HFollow unit (FUndelegate 1 13 100); HFollow unit (FRedelegate 1 13 14 200); HFollow unit (FUndelegate 3 13 50);
    HSubmit unit 2 500 false 1209600 10000;
-   HEndBlock unit 25 30 [] [];
+   HEndBlock unit 25 30 [] [] no_vside;
    HFollow unit (FWithdraw 1 13)].
 
 Definition ex_reach : state := reached unit sig_any Z h_ask h_next 0 ex_hist.
